@@ -320,10 +320,9 @@ deriving DecidableEq, Repr
 /-- numpy broadcasting of 1-d arrays: every length is 1 or the common length `m`
 (no length other than 1 present: `m = 1`) -/
 def bcastLen (lens : List Nat) : Except CallErr Nat :=
-  match (lens.filter (· != 1)).eraseDups with
+  match lens.filter (· != 1) with
   | [] => .ok 1
-  | [m] => .ok m
-  | _ => .error .shape
+  | m :: rest => if rest.all (· == m) then .ok m else .error .shape
 
 /-- element `i` of an argument after broadcasting -/
 def bget {α : Type} (xs : List α) (i : Nat) : Option α := if xs.length == 1 then xs[0]? else xs[i]?
